@@ -297,6 +297,12 @@ enum Cons {
     /// add_to_graph on a HashSet graph/dataset, remove_all on a BTreeSet graph/dataset
     AddH(Vec<It>),
     RemB(Vec<It>),
+    /// `graph.as_dataset_mut().insert_all(quads)` / `quads.add_to_dataset(&mut graph.into_dataset())` /
+    /// element-wise `insert_quad` on the same adapter: a named-graph quad is the sink fault OnlyDefaultGraph
+    Gad(u8, Vec<It>),
+    /// `dataset.graph_mut(g).insert_all(triples)` / `.remove_all(triples)`
+    Dsg(u64, Vec<It>),
+    DsgRem(u64, Vec<It>),
     /// streaming (non-pretty) Turtle / TriG / RDF-XML serializer over a writer failing after `limit`
     /// bytes; `plan` = where the third-party formatter alone hits the limit
     Rio(RioKind, usize, String, Plan),
@@ -386,6 +392,9 @@ impl Cons {
             Cons::Rem(p) => format!("rem.{}", render_pre(p)),
             Cons::Small(f, p) => format!("small.{}.{}", f, render_pre(p)),
             Cons::Ser(l, e) => format!("ser.{}.{}", l, e),
+            Cons::Gad(v, p) => format!("{}.{}", ["gad", "gadd", "gade"][*v as usize], render_pre(p)),
+            Cons::Dsg(g, p) => format!("dsg.{}.{}", g, render_pre(p)),
+            Cons::DsgRem(g, p) => format!("dsgr.{}.{}", g, render_pre(p)),
             Cons::Hs => "hs".into(),
             Cons::Bs => "bs".into(),
             Cons::AddH(p) => format!("addh.{}", render_pre(p)),
@@ -406,6 +415,11 @@ impl Cons {
             ["rem", p] => Cons::Rem(parse_pre(p)?),
             ["small", fr, p] => Cons::Small(fr.parse().ok()?, parse_pre(p)?),
             ["ser", l, e] => Cons::Ser(l.parse().ok()?, e.to_string()),
+            ["gad", p] => Cons::Gad(0, parse_pre(p)?),
+            ["gadd", p] => Cons::Gad(1, parse_pre(p)?),
+            ["gade", p] => Cons::Gad(2, parse_pre(p)?),
+            ["dsg", g, p] => Cons::Dsg(g.parse().ok()?, parse_pre(p)?),
+            ["dsgr", g, p] => Cons::DsgRem(g.parse().ok()?, parse_pre(p)?),
             ["hs"] => Cons::Hs,
             ["bs"] => Cons::Bs,
             ["addh", p] => Cons::AddH(parse_pre(p)?),
@@ -437,6 +451,11 @@ impl Cons {
             Cons::Rem(_) => "rem",
             Cons::Small(..) => "small",
             Cons::Ser(..) => "ser",
+            Cons::Gad(0, _) => "graph_as_dataset.insert_all",
+            Cons::Gad(1, _) => "graph_as_dataset.add_to_dataset",
+            Cons::Gad(..) => "graph_as_dataset.insert_quad",
+            Cons::Dsg(..) => "dataset_graph.insert_all",
+            Cons::DsgRem(..) => "dataset_graph.remove_all",
             Cons::Hs => "hashset",
             Cons::Bs => "btreeset",
             Cons::AddH(_) => "add_hashset",
@@ -1338,6 +1357,22 @@ where
             let r = g.insert_all(src);
             (ret_of(&r, index_full), r.ok(), None, fin_graph(&g, &log, pre, &mut notes))
         }
+        Cons::Dsg(gn, pre) | Cons::DsgRem(gn, pre) => {
+            let mut d = sophia_inmem::dataset::LightDataset::new();
+            pre_q(&mut d, pre);
+            let name = if *gn == 0 { None } else { Some(iri(&format!("x:g{}", gn))) };
+            let r = {
+                let mut g = d.graph_mut(name);
+                if matches!(&cx.cons, Cons::Dsg(..)) { g.insert_all(src) } else { g.remove_all(src) }
+            };
+            let mut extra: Vec<It> = pre.clone();
+            extra.extend(log.borrow().iter().map(|i| It::Q(i.val(), *gn)));
+            for v in dataset_views(&d, &extra) {
+                notes.push(format!("index_{}", v));
+            }
+            (ret_of(&r, index_full), r.ok(), None, render_items(&dataset_items(&d)))
+        }
+        Cons::Gad(..) => return Obs::bad("bad-consumer"),
         Cons::Ser(limit, e) => {
             let mut w = FailAfter { buf: vec![], limit: *limit, msg: e.clone(), log: log.clone(), refused_at: None, short_at: None };
             let ret = {
@@ -1531,6 +1566,48 @@ where
             (ret_of(&r, |_| "infallible".into()), r.ok(), None, fin_dataset(&g, &log, pre, &mut notes))
         }
         Cons::Small(..) => return Obs::bad("small-needs-triples"),
+        Cons::Gad(variant, pre) => {
+            use sophia_api::dataset::adapter::GraphAsDatasetMutationError as GadErr;
+            let pay = |e: &GadErr<sophia_inmem::index::TermIndexFullError>| match e {
+                GadErr::OnlyDefaultGraph => "only-default-graph".to_string(),
+                GadErr::Graph(_) => "index-full".to_string(),
+            };
+            match variant {
+                0 => {
+                    let mut g = sophia_inmem::graph::LightGraph::new();
+                    pre_t(&mut g, pre);
+                    let r = g.as_dataset_mut().insert_all(src);
+                    (ret_of(&r, pay), r.ok(), None, fin_graph(&g, &log, pre, &mut notes))
+                }
+                1 => {
+                    let mut g = sophia_inmem::graph::FastGraph::new();
+                    pre_t(&mut g, pre);
+                    let mut d = g.into_dataset();
+                    let r = src.add_to_dataset(&mut d);
+                    let g = d.unwrap();
+                    (ret_of(&r, pay), r.ok(), None, fin_graph(&g, &log, pre, &mut notes))
+                }
+                _ => {
+                    // element-wise, for comparison
+                    let mut g = sophia_inmem::graph::LightGraph::new();
+                    pre_t(&mut g, pre);
+                    let mut c = 0usize;
+                    let r = {
+                        let mut d = g.as_dataset_mut();
+                        src.try_for_each_quad(|q| {
+                            d.insert_quad(q).map(|b| {
+                                if b {
+                                    c += 1;
+                                }
+                            })
+                        })
+                    };
+                    let val = r.as_ref().ok().map(|_| c);
+                    (ret_of(&r, pay), val, None, fin_graph(&g, &log, pre, &mut notes))
+                }
+            }
+        }
+        Cons::Dsg(..) | Cons::DsgRem(..) => return Obs::bad("bad-consumer"),
         Cons::Ser(limit, e) => {
             let mut w = FailAfter { buf: vec![], limit: *limit, msg: e.clone(), log: log.clone(), refused_at: None, short_at: None };
             let ret = {
@@ -2050,6 +2127,35 @@ fn expect(src: &Src, chain: &[Adapter], cons: &Cons, obs: &Obs) -> Expect {
             val = Some(all.len() - p.len());
             fin = Some(render_items(&all));
         }
+        Cons::Gad(_, pre) => {
+            // the wrapped graph holds triples; the first quad in a named graph is the sink's own fault
+            let p = sorted(pre.clone());
+            let mut all = p.clone();
+            for (idx, x) in xs.iter().enumerate() {
+                if matches!(x, It::Q(_, g) if *g != 0) {
+                    sink_fail = Some((idx + 1, "only-default-graph".into()));
+                    break;
+                }
+                all.push(It::T(x.val()));
+            }
+            let all = sorted(all);
+            val = Some(all.len() - p.len());
+            fin = Some(render_items(&all));
+        }
+        Cons::Dsg(gn, pre) => {
+            let p = sorted(pre.clone());
+            let mut all = p.clone();
+            all.extend(xs.iter().map(|x| It::Q(x.val(), *gn)));
+            let all = sorted(all);
+            val = Some(all.len() - p.len());
+            fin = Some(render_items(&all));
+        }
+        Cons::DsgRem(gn, pre) => {
+            let p = sorted(pre.clone());
+            let left: Vec<It> = p.iter().copied().filter(|i| !xs.iter().any(|x| It::Q(x.val(), *gn) == *i)).collect();
+            val = Some(p.len() - left.len());
+            fin = Some(render_items(&left));
+        }
         Cons::Ser(_, e) | Cons::Rio(_, _, e, _) => {
             // the writer refused bytes while the sink was working on item number `n` (or before any /
             // after all of them): the stream must have stopped right there, as a SinkError
@@ -2234,7 +2340,10 @@ pub fn exec(line: &str) -> String {
             out += &format!(" FAIL.final=expected:{}", fin);
         }
     }
-    if matches!(cons, Cons::Lg | Cons::Fg | Cons::Add(_) | Cons::Ins(_) | Cons::Rem(_) | Cons::Small(..)) {
+    if matches!(
+        cons,
+        Cons::Lg | Cons::Fg | Cons::Add(_) | Cons::Ins(_) | Cons::Rem(_) | Cons::Small(..) | Cons::Gad(..) | Cons::Dsg(..) | Cons::DsgRem(..)
+    ) {
         out += if obs.notes.iter().any(|n| n.starts_with("index_")) { " idx=0" } else { " idx=1" };
     }
     for n in &obs.notes {
@@ -2400,6 +2509,34 @@ fn other_consumers(rng: &mut Rng, quads: bool, xs: &[It]) -> Vec<Cons> {
     v.push(Cons::Add(pre(rng)));
     v.push(Cons::Ins(pre(rng)));
     v.push(Cons::Rem(pre(rng)));
+    if quads {
+        // the wrapped graph is pre-filled with triples
+        let pt = |rng: &mut Rng| {
+            let mut p = gen_pre(rng, false);
+            for x in xs {
+                if rng.chance(1, 4) {
+                    p.push(It::T(x.val()));
+                }
+            }
+            sorted(p)
+        };
+        for variant in 0..3u8 {
+            v.push(Cons::Gad(variant, pt(rng)));
+        }
+    } else {
+        let pq = |rng: &mut Rng| {
+            let mut p = gen_pre(rng, true);
+            for x in xs {
+                if rng.chance(1, 3) {
+                    p.push(It::Q(x.val(), rng.below(3) as u64));
+                }
+            }
+            sorted(p)
+        };
+        let gn = rng.below(3) as u64;
+        v.push(Cons::Dsg(gn, pq(rng)));
+        v.push(Cons::DsgRem(gn, pq(rng)));
+    }
     v.push(Cons::Hs);
     v.push(Cons::Bs);
     v.push(Cons::AddH(pre(rng)));
@@ -2802,6 +2939,43 @@ fn gen_turtle_list_sample(e: &mut Emit, max_depth: usize) {
     e.iter_at = None;
 }
 
+/// quad streams whose ONLY named-graph quad sits at position k, for every k, into the GraphAsDataset
+/// sinks (all three ways), through a kind-preserving chain; plus a source fault before / after it
+fn gen_gad_sample(e: &mut Emit, len: usize, max_depth: usize) {
+    e.iter_at = None;
+    let payload = (e.ctx.rng.below(90) + 10).to_string();
+    // a chain that keeps quads and their graph names
+    let depth = e.ctx.rng.range(0, max_depth.min(2));
+    let mut chain = vec![];
+    for _ in 0..depth {
+        let p = Pred { m: e.ctx.rng.range(2, 4) as u64, r: e.ctx.rng.range(0, 2) as u64 };
+        chain.push(match e.ctx.rng.below(4) {
+            0 => Adapter::Filter(W::Q, p),
+            1 => Adapter::Filter(W::I, p),
+            2 => Adapter::Map(W::Q, Fun::Add(e.ctx.rng.below(3) as u64)),
+            _ => Adapter::FilterMap(W::I, p, Fun::Add(e.ctx.rng.below(3) as u64)),
+        });
+    }
+    let base: Vec<u64> = (0..len).map(|_| e.ctx.rng.below(7) as u64).collect();
+    for k in 0..=len {
+        // k == len: no named graph at all
+        let items: Vec<It> =
+            base.iter().enumerate().map(|(i, n)| It::Q(*n, if i == k { 1 + (i as u64 % 2) } else { 0 })).collect();
+        let xs = chain_meaning(&chain, &items);
+        let pre = sorted(xs.iter().filter(|_| e.ctx.rng.chance(1, 4)).map(|x| It::T(x.val())).collect());
+        for variant in 0..3u8 {
+            e.case(&no_fault(true, &items), &chain, &Cons::Gad(variant, pre.clone()), false, "", "sink.only_default_graph");
+        }
+        if len > 0 {
+            let j = e.ctx.rng.range(0, len);
+            let v = (k % 3) as u8;
+            e.case(&with_fault(true, &items, j, &payload), &chain, &Cons::Gad(v, pre.clone()), false, "", "both");
+            let src = Src::Chunk(true, chunk_script(&mut e.ctx.rng, &items, Some(j), &payload));
+            e.case(&src, &chain, &Cons::Gad(v, pre), false, "", "both");
+        }
+    }
+}
+
 pub fn generate(ctx: &mut GenCtx) {
     if std::env::var("C15_DEBUG").is_ok() {
         std::panic::set_hook(Box::new(|i| eprintln!("{}", i)));
@@ -2868,6 +3042,11 @@ pub fn generate(ctx: &mut GenCtx) {
     for i in 0..n_chunk {
         let len = if i % 5 == 0 { e.ctx.rng.range(0, 3) } else { e.ctx.rng.range(2, 12) };
         gen_chunked_sample(&mut e, len, max_depth);
+    }
+    let n_gad = if thorough { 300 } else { 30 };
+    for i in 0..n_gad {
+        let len = if i % 4 == 0 { e.ctx.rng.range(0, 2) } else { e.ctx.rng.range(2, 10) };
+        gen_gad_sample(&mut e, len, max_depth);
     }
     let n_list = if thorough { 400 } else { 40 };
     for _ in 0..n_list {
